@@ -58,7 +58,7 @@ Definition wf_var (st : state) (w : var) : Prop :=
 Definition nondestructive (o : op) : bool :=
   match o with
   | OList _ _ | OCons _ _ _ | OCdr _ _ | ONthcdr _ _ _ | OLast _ _ | OButlast _ _ | OSubseq _ _ _ _ | OCopy _ _
-  | OReverse _ _ | OAppend _ _ _ | OPush _ _ | OPop _ => true
+  | OReverse _ _ | OAppend _ _ _ | OPush _ _ | OPop _ | ORemove _ _ _ => true
   | _ => false
   end.
 
@@ -101,6 +101,7 @@ Proof.
   - frame_alloc Hw Hd.
   - (* pop *) destruct (getv st v) as [s|]; [destruct (s_len s =? 0)|]; try reflexivity.
     unfold vcontents. rewrite getv_setv_raw_other by exact Hd. reflexivity.
+  - (* remove *) frame_alloc Hw Hd.
 Qed.
 
 (* ---------- F2: a destructive operation on v changes another variable only if that variable's
@@ -414,6 +415,7 @@ Proof.
     * cbn [norm]. apply Nat.eqb_eq in E0. rewrite E0. apply (inv_none nv _ dst HI2 Hd).
     * apply (inv_reslice nv _ dst _ s src HI2 Hd); [apply live_of_getv; assumption|].
       intros t Ht. apply norm_some in Ht as [Ht _]. apply norm_some in Ht as [Ht _]. injection Ht as <-. auto.
+  - (* remove *) destruct (alloc (hp st) _ cap) as [h' r] eqn:Ea. rewrite setv_upd. eapply inv_fresh; eassumption.
 Qed.
 
 (* ---------- histories ---------- *)
